@@ -36,12 +36,12 @@ THEOREMS = ["C09_final_stage_direction",
             "C09_minor_geo_near_parabolic",
             "C09_minor_helio",
             "C09_minor_elongation",
-            "C09_minor_direction"]
+            "C09_minor_direction", "C09_pluto_geo", "C09_pluto_refuses"]
 PROOF_TIMEOUT = {"quick": 2000, "thorough": 3000}
 EXHAUSTIVE = False
 MANIFEST = {
     "category": "proof",
-    "text": "Ideal-instance theorems about the GENERATED code with all callees abstracted (blocked + hypotheses), evaluated by a call-by-value symbolic evaluator: the whole body of each of the seven <Planet>.geocentric_position (second heliocentric call at epoch - tau, vector difference, atan2 stage, aberration k = 20.49552 with the e/pi polynomials, FK5, nutation, ecliptical2equatorial with true obliquity, elongation; the Sun provably taken at the shifted epoch = known finding), Minor.geocentric_position in the elliptic and near-parabolic regimes (which branch for which e), Minor.heliocentric_ecliptical_position, Minor.set; the closed forms are tied to spec theorems (direction of the vector, corrections <= 0.02 deg, elongation in [0,180] = angle to the Sun, Cauchy-Schwarz for the minor-body elongation); JDE2000 = 2451545 proved; bit-exact correspondence on planet/Pluto/Minor calls; search oracle recomputing every direction from the library's own heliocentric vectors (planets), the re-evaluated Meeus series (Pluto) and an independent two-body propagation (minor bodies).",
+    "text": "Ideal-instance theorems about the GENERATED code with all callees abstracted (blocked + hypotheses), evaluated by a call-by-value symbolic evaluator: the whole body of each of the seven <Planet>.geocentric_position (second heliocentric call at epoch - tau, vector difference, atan2 stage, aberration k = 20.49552 with the e/pi polynomials, FK5, nutation, ecliptical2equatorial with true obliquity, elongation; the Sun provably taken at the shifted epoch = known finding), Minor.geocentric_position in the elliptic and near-parabolic regimes (which branch for which e), Minor.heliocentric_ecliptical_position, Minor.set, Pluto.geocentric_position (year gate, two passes, ra/dec); the closed forms are tied to spec theorems (direction of the vector, corrections <= 0.02 deg, elongation in [0,180] = angle to the Sun, Cauchy-Schwarz for the minor-body elongation); JDE2000 = 2451545 proved; bit-exact correspondence on planet/Pluto/Minor calls; search oracle recomputing every direction from the library's own heliocentric vectors (planets), the re-evaluated Meeus series (Pluto) and an independent two-body propagation (minor bodies).",
     "technique": "call-by-value symbolic evaluation (pyrun9) of the regenerated model in the real-number instance with blocked callees + real analysis (atan2/acos lemmas, Cauchy-Schwarz, interval) + bit-exact differential correspondence + oracle search",
     "design_ref": "8/C09",
 }
@@ -62,7 +62,9 @@ CLAUSES = {
     "planets: agreement to 0.02 deg with the direction recomputed from the library's heliocentric vectors, epochs -2000..4000": "unproved (searched): follows from C09_body_direction + C09_body_corrections only under their side conditions and bounds on the nutation series; the search recomputes it on the implementation",
     "auxiliary (tighter than the property text): returned place within 0.002 deg of the apparent place rebuilt with independently written aberration/FK5 formulas and the library's nutation": "unproved (searched), key planet-apparent-place",
     "Mercury <= 28.5 deg, Venus <= 48 deg": "unproved (searched)",
-    "Pluto 1885-2099 direction to 1e-4 deg; series of Meeus ch.37 re-evaluated": "unproved (searched) + bit-exact correspondence",
+    "Pluto.geocentric_position body: year gate 1885..2099 (ValueError outside), Pluto at epoch and at epoch - tau, ecliptic J2000 -> equatorial, ra = atan2(eta, xi) in [0,360), dec = asin(zeta/delta)": "proved [ideal, generated code, Pluto.geometric_heliocentric_position / Sun.rectangular_coordinates_j2000 / Epoch.year / Epoch.__sub__ abstracted: C09_pluto_geo, C09_pluto_refuses]",
+    "Pluto.geometric_heliocentric_position (43-term series)": "unproved (searched): series of Meeus ch.37 re-evaluated independently with the module's tables (key pluto-heliocentric-series) + bit-exact correspondence",
+    "Pluto 1885-2099 direction to 1e-4 deg": "unproved (searched)",
     "Minor.set: Gauss constants a,b,c,A,B,C closed forms; a = |q/(1-e)| (e < 1 - tol) or q (|e-1| <= tol); n = 0.9856076686/(a sqrt a)": "proved [ideal, generated code, all q > 0, any orientation]",
     "Minor: the Gauss constants rotate (r, u) into equatorial J2000 x,y,z (Rx(eps) Rz(Omega) Rx(i))": "proved [spec: gauss_xyz]",
     "Minor.geocentric_position, regime e < 0.98: kepler_equation path, r = a(1 - e cos E), two light-time passes, ra/dec = direction of body(t - tau) + Sun(t), elongation": "proved [ideal, generated code, kepler_equation and Sun.rectangular_coordinates_j2000 abstracted: C09_minor_geo_elliptic, C09_minor_direction, C09_minor_elongation]",
@@ -80,7 +82,7 @@ def proof_files(tier):
     return (["C09_spec.v", "C09_minor.v", "C09_A_defs.v", "C09_A_tac.v", "C09_A_reduce.v", "C09_A_construct.v",
              "C09_A_ops.v", "C09_angle.v", "C09_geo.v", "C09_tac.v", "C09_body.v", "C09_J_tac.v", "C09_J_jde.v"]
             + ["C09_pl_%s.v" % p for p in PLANETS]
-            + ["C09_planets.v", "C09_mbody.v", "C09_mgeo.v", "C09.v"])
+            + ["C09_planets.v", "C09_mbody.v", "C09_mgeo.v", "C09_pluto.v", "C09.v"])
 
 
 # ----------------------------------------------------------------------------------------------
